@@ -43,10 +43,21 @@ class MachineryError(Exception):
 
 
 class TLCResult:
-    def __init__(self, out, rc, wall):
-        self.out = out
+    """Result of one TLC run.  The output is kept in a file (it can be gigabytes of printed
+    behaviours); `out` holds only the lines TLC itself wrote (no PrintT lines)."""
+
+    def __init__(self, out_path, rc, wall):
+        self.out_path = out_path
         self.rc = rc
         self.wall = wall
+        keep = []
+        with open(out_path, errors="replace") as f:
+            for line in f:
+                if not line.startswith('<<"'):
+                    keep.append(line)
+                    if len(keep) > 20000:
+                        del keep[:10000]
+        self.out = out = "".join(keep)
         self.generated = 0
         self.distinct = 0
         self.depth = 0
@@ -69,18 +80,32 @@ class TLCResult:
     def ok(self):
         return self.rc == 0 and not self.errors
 
-    def printed(self, tag):
-        """Values printed by PrintT(<<tag, ToJson(x)>>) -> list of decoded JSON values."""
-        res = []
+    def iter_printed(self, tag):
+        """JSON texts printed by PrintT(<<tag, ToJson(x)>>), one at a time (not decoded)."""
         prefix = '<<"%s", ' % tag
-        for line in self.out.splitlines():
-            if line.startswith(prefix) and line.endswith(">>"):
-                lit = line[len(prefix):-2]
-                try:
-                    res.append(json.loads(json.loads(lit)))
-                except Exception as e:  # pragma: no cover
-                    raise MachineryError("cannot decode TLC output line: %r (%s)" % (line[:200], e))
-        return res
+        with open(self.out_path, errors="replace") as f:
+            for line in f:
+                if line.startswith(prefix):
+                    line = line.rstrip("\n")
+                    if line.endswith(">>"):
+                        try:
+                            yield json.loads(line[len(prefix):-2])
+                        except Exception as e:  # pragma: no cover
+                            raise MachineryError("cannot decode TLC output line: %r (%s)" % (line[:200], e))
+
+    def printed(self, tag):
+        """Decoded values (use printed_to_file for large outputs)."""
+        return [json.loads(t) for t in self.iter_printed(tag)]
+
+    def printed_to_file(self, tag, path):
+        """Writes the printed JSON values as ndjson without holding them in memory; returns the count."""
+        n = 0
+        with open(path, "w") as f:
+            for t in self.iter_printed(tag):
+                f.write(t)
+                f.write("\n")
+                n += 1
+        return n
 
     def tail(self, n=40):
         return "\n".join(self.out.splitlines()[-n:])
@@ -213,16 +238,18 @@ class Ctx:
         cmd += list(extra)
         cmd.append(module + ".tla")
         t = time.time()
-        try:
-            p = subprocess.run(cmd, cwd=d, stdout=subprocess.PIPE, stderr=subprocess.STDOUT, text=True,
-                               timeout=timeout, env=dict(os.environ, LC_ALL="C.UTF-8"))
-            out, rc = p.stdout, p.returncode
-        except subprocess.TimeoutExpired as e:
-            out = (e.stdout.decode("utf-8", "replace") if isinstance(e.stdout, bytes) else (e.stdout or ""))
-            if must_pass:
-                raise MachineryError("TLC timed out after %ss on %s/%s\n%s" % (timeout, module, cfg, out[-2000:]))
-            rc = 124
-        res = TLCResult(out, rc, time.time() - t)
+        out_path = os.path.join(d, "tlc.out")
+        rc = None
+        with open(out_path, "w") as outf:
+            try:
+                p = subprocess.run(cmd, cwd=d, stdout=outf, stderr=subprocess.STDOUT, timeout=timeout,
+                                   env=dict(os.environ, LC_ALL="C.UTF-8"))
+                rc = p.returncode
+            except subprocess.TimeoutExpired:
+                rc = 124
+        if rc == 124 and must_pass:
+            raise MachineryError("TLC timed out after %ss on %s/%s\n%s" % (timeout, module, cfg, TLCResult(out_path, rc, 0).tail(20)))
+        res = TLCResult(out_path, rc, time.time() - t)
         res.dir = d
         self.tlc_runs.append({"module": module, "cfg": cfg, "label": label or cfg, "generated": res.generated,
                               "distinct": res.distinct, "depth": res.depth, "wall_s": round(res.wall, 2),
@@ -317,6 +344,21 @@ class Ctx:
             return 1
         self.log("OK: no violation; evidence written")
         return 0
+
+
+def read_ndjson_lines(path, indices):
+    """The 0-based lines `indices` of an ndjson file, decoded: {index: value}."""
+    want = set(indices)
+    res = {}
+    if not want:
+        return res
+    with open(path) as f:
+        for i, line in enumerate(f):
+            if i in want:
+                res[i] = json.loads(line)
+                if len(res) == len(want):
+                    break
+    return res
 
 
 def read_ndjson(path):
